@@ -152,7 +152,18 @@ func orcTrigger(s *orcStep, prop string) string {
 		}
 	}
 	// --- imported / inherited ---------------------------------------------------------
+	foreignUp := func(i int) bool { // the object or one of its containers is imported
+		for ; i >= 0; i = pre.Objs[i].Parent {
+			if pre.Objs[i].Foreign {
+				return true
+			}
+		}
+		return false
+	}
 	if t >= 0 {
+		if foreignUp(t) {
+			return "target-imported"
+		}
 		for i := range pre.Objs {
 			if inSub(i) && pre.Objs[i].Foreign {
 				return "target-imported"
@@ -161,7 +172,7 @@ func orcTrigger(s *orcStep, prop string) string {
 	}
 	if te >= 0 {
 		e := pre.Edges[te]
-		if e.Foreign || pre.Objs[e.Src].Foreign || pre.Objs[e.Dst].Foreign {
+		if e.Foreign || foreignUp(e.Src) || foreignUp(e.Dst) {
 			return "endpoint-imported"
 		}
 	}
@@ -234,6 +245,16 @@ func orcTrigger(s *orcStep, prop string) string {
 		if !gen.IsPlain(last) && !strings.EqualFold(last, own) {
 			return "new-name-needs-quoting"
 		}
+	}
+	// --- special shapes ----------------------------------------------------------------
+	if t >= 0 && (c.Kind == "move" || c.Kind == "rename") {
+		if sh := strings.ToLower(pre.Objs[t].Shape); sh == "class" || sh == "sql_table" {
+			// move() treats the fields of a class / table as child objects
+			return "target-is-class-or-sql-table"
+		}
+	}
+	if t >= 0 && pre.Objs[t].DupAttr && (c.Kind == "set" || (c.Kind == "delete" && len(k.Attr) > 0)) {
+		return "attribute-key-declared-twice-in-one-map"
 	}
 	// --- labels ------------------------------------------------------------------------
 	if c.Kind == "set" && !k.Edge && len(k.Attr) == 0 && t >= 0 && pre.Objs[t].LabelKW {
